@@ -8,8 +8,8 @@ arguments, that each translated piece is the corresponding piece of the model `F
 the theorems of C08 are about. (Exact statements with comments: FitProps/Go2LeanReadBuffer.lean.)
 
 PROPERTY THEOREMS (audited by ./check): C08_go2lean_consts, C08_go2lean_remaining, C08_go2lean_cur, C08_go2lean_copy,
-C08_go2lean_fill, C08_go2lean_refill, C08_go2lean_window, C08_go2lean_clamp, C08_go2lean_reset, C08_go2lean_oldsize,
-C08_go2lean_readN_recomposed
+C08_go2lean_fill, C08_go2lean_refill, C08_go2lean_window, C08_go2lean_clamp, C08_go2lean_reset, C08_go2lean_readN_recomposed
+(and C08_go2lean_oldsize in FitProps/C08CapGo2Lean.lean)
 -/
 namespace Fit.C08
 open Fit.Go2Lean Fit.ReadBuffer Go.readbuffer
@@ -48,13 +48,6 @@ theorem C08_go2lean_reset (cap size : Nat) (hs : size < 2^62) :
     Reset_grow ((cap : Int) - (Go.readbuffer.reservedbuf : Int)) size = decide (cap < Fit.Gen.Reader.reservedbuf + size) ∧
     Reset_allocLen size = ((Fit.Gen.Reader.reservedbuf + size : Nat) : Int) ∧
     Reset_len size = ((Fit.Gen.Reader.reservedbuf + size : Nat) : Int) := rb_reset cap size hs
-
-/-- `oldsize := cap(b.buf) - reservedbuf`: for every hidden tail of `b.buf` (capacity and stale bytes), the grow decision of
-`Reset` is the model's `arr.length < reservedbuf + size` for the backing array `arr = buf ++ tail` -/
-theorem C08_go2lean_oldsize (buf tail : List Nat) (size : Nat) (hc : buf.length + tail.length < 2^62) (hs : size < 2^62) :
-    (Reset_oldsize buf tail).oldsize = ((buf ++ tail).length : Int) - (Go.readbuffer.reservedbuf : Int) ∧
-    Reset_grow (Reset_oldsize buf tail).oldsize size = decide ((buf ++ tail).length < Fit.Gen.Reader.reservedbuf + size) :=
-  rb_oldsize buf tail size hc hs
 
 /-- `ReadN` re-assembled from the translated pieces in the order of the Go text (`Fit.Go2Lean.readNGo`: the translated runs,
 conditions, slice bounds and arguments; from the model only `copy`, `io.ReadAtLeast`, the storing of its bytes and Go's
